@@ -250,27 +250,28 @@ func (c WConfig) String() string {
 
 // WEnv is a writer connection plus its bookkeeping.
 type WEnv struct {
-	X       *explore.Ctx
-	Cfg     WConfig
-	NC      *netsim.Conn
-	C       *websocket.Conn
-	Pool    *LogPool
-	Mask    *MaskRec
-	Sent    []SentMsg
-	Calls   []APICall
-	WComp   bool // current EnableWriteCompression state
-	Level   int
-	OnErr   func(call *APICall) // called when an API call returned an error (default: violation)
-	Sizes   []int
-	open    io.WriteCloser // an abandoned writer, if any
-	openMsg *SentMsg
-	Name    string
-	Failed  bool // an API call failed (fault injection); later expectations are void
-	CurKind string
-	Quick   bool
-	Between func(pos string) // extra hook between the calls of a message program
-	CtlDL   time.Time        // deadline argument used for WriteControl
-	curCall int
+	X            *explore.Ctx
+	Cfg          WConfig
+	NC           *netsim.Conn
+	C            *websocket.Conn
+	Pool         *LogPool
+	Mask         *MaskRec
+	Sent         []SentMsg
+	Calls        []APICall
+	WComp        bool // current EnableWriteCompression state
+	Level        int
+	OnErr        func(call *APICall) // called when an API call returned an error (default: violation)
+	Sizes        []int
+	open         io.WriteCloser // an abandoned writer, if any
+	openMsg      *SentMsg
+	Name         string
+	Failed       bool // an API call failed (fault injection); later expectations are void
+	CurKind      string
+	Quick        bool
+	BeforeFinish func()           // called by writePhase after the last message, before an abandoned writer is closed
+	Between      func(pos string) // extra hook between the calls of a message program
+	CtlDL        time.Time        // deadline argument used for WriteControl
+	curCall      int
 }
 
 // callQuiet records an API call that is expected to fail (invalid request): no Failed flag.
